@@ -330,3 +330,60 @@ Proof.
     unfold sget, sset in *. rewrite sget_sset. destruct (str_eqb_spec s s') as [->|Hn]; eauto.
   - rewrite Hs. unfold sget, sset. rewrite sget_sset, str_eqb_refl. eauto.
 Qed.
+
+(* ---------- constructing a format directly from elements enforces the same rules ---------- *)
+Definition el_valid (e : element) : bool := match e with EArg a => arg_valid a | _ => true end.
+Lemma add_elements_wf : forall es f f', wf f -> forallb el_valid es = true -> add_elements f es = Ok f' -> wf f'.
+Proof.
+  induction es as [|e r IH]; intros f f' Hw Hv H; cbn in *.
+  - inversion H; subst; auto.
+  - apply andb_prop in Hv as [He Hr]. unfold bind in H.
+    destruct e; cbn in He.
+    + destruct (add_option f o) as [g|] eqn:E; [|discriminate]. apply (IH g f'); auto. eapply add_option_wf; eauto.
+    + destruct (add_command_option f c) as [g|] eqn:E; [|discriminate]. apply (IH g f'); auto. eapply add_copt_wf; eauto.
+    + destruct (add_argument f a) as [g|] eqn:E; [|discriminate]. apply (IH g f'); auto. eapply add_argument_wf; eauto.
+    + destruct (add_command_name f c) as [g|] eqn:E; [|discriminate]. apply (IH g f'); auto. eapply add_cname_wf; eauto.
+Qed.
+Lemma format_of_elements_wf_lemma es base f :
+  match base with Some b => wf b | None => True end -> forallb el_valid es = true ->
+  format_of_elements es base = Ok f -> wf f.
+Proof.
+  intros Hb Hv H. unfold format_of_elements, bind in H.
+  destruct (add_elements (empty_builder base) es) eqn:E; [|discriminate]. inversion H; subst.
+  rewrite idx_inv_build. 2:{ eapply add_elements_keeps_idx; [apply empty_builder_idx|eauto]. }
+  eapply add_elements_wf; eauto. destruct base; [apply empty_builder_wf_some; auto|apply empty_builder_wf_none].
+Qed.
+(* a format built by the API, used as the base of another builder, built on again *)
+Lemma stacked_wf_lemma ops0 ops1 :
+  forallb bop_valid ops0 = true -> forallb bop_valid ops1 = true ->
+  wf (build_format (brun (empty_builder (Some (build_format (brun (empty_builder None) ops0)))) ops1)).
+Proof.
+  intros. rewrite !reachable_build_id. apply reachable_wf_lemma; auto.
+  apply empty_builder_wf_some. apply reachable_wf_lemma; auto. apply empty_builder_wf_none.
+Qed.
+
+(* ---------- lookup by position: existence and lookup agree, and both read the listing ---------- *)
+From Coq Require Import Lia.
+Definition nth_arg (ars : list (str * arg)) (i : Z) : option arg :=
+  if (i <? 0)%Z then None else option_map snd (nth_error ars (Z.to_nat i)).
+Lemma get_argument_pos f i incl :
+  get_argument f (APos i) incl = match nth_arg (get_arguments f incl) i with Some a => Ok a | None => Err NoSuchArgument end.
+Proof.
+  unfold get_argument, nth_arg. set (ars := get_arguments f incl).
+  destruct (Z.leb_spec (Z.of_nat (length ars)) i) as [Hle|Hlt].
+  - destruct (Z.ltb_spec i 0) as [H0|H0]; [reflexivity|].
+    assert (nth_error ars (Z.to_nat i) = None) as -> by (apply nth_error_None; lia). reflexivity.
+  - destruct (Z.ltb_spec i 0) as [H0|H0]; [reflexivity|].
+    destruct (nth_error ars (Z.to_nat i)) as [[n a]|] eqn:E; reflexivity.
+Qed.
+Lemma has_argument_pos f i incl :
+  has_argument f (APos i) incl = match nth_arg (get_arguments f incl) i with Some _ => true | None => false end.
+Proof.
+  unfold has_argument, nth_arg. set (ars := get_arguments f incl).
+  destruct (Z.ltb_spec i 0) as [H0|H0].
+  - destruct (Z.leb_spec 0 i); [lia|reflexivity].
+  - destruct (Z.leb_spec 0 i); [|lia]. cbn [andb].
+    destruct (Z.ltb_spec i (Z.of_nat (length ars))) as [Hlt|Hge].
+    + destruct (nth_error ars (Z.to_nat i)) eqn:E; [reflexivity|]. apply nth_error_None in E. lia.
+    + assert (nth_error ars (Z.to_nat i) = None) as -> by (apply nth_error_None; lia). reflexivity.
+Qed.
